@@ -96,7 +96,7 @@ func c07mLines(cs c07mCase) []string {
 		lines = append(lines, p)
 	}
 	// what every client may ask at any time
-	lines = append(lines, `{"getCrew":{}}`, `{"getSpec":{"source":{"name":"`+cs.Spec+`"}}}`, `{"cop":{"process":{"message":{"do":"ok"}}}}`, `{"cop":{"rem":{"id":"a"}}}`, `{"getCrew":{}}`)
+	lines = append(lines, `{"getCrew":{}}`, `{"getSpec":{"source":{"name":"`+cs.Spec+`"}}}`, add, `{"cop":{"process":{"message":{"do":"ok"}}}}`, `{"cop":{"rem":{"id":"a"}}}`, `{"getCrew":{}}`)
 	return lines
 }
 
@@ -199,7 +199,7 @@ func C07mcrew(c *vh.Ctx) {
 	c.Bound("mcrew_states", len(states))
 	c.Bound("mcrew_messages", len(msgs))
 	c.Bound("mcrew_controls", len(ctls))
-	c.Rule("(mcrew host) a machine is added and messages are submitted as lines of Service.Listener's text protocol: every combination of a specification file (four that work - one with parameter defaults, one with an action-error node of its own, one that names the error node as its action-error node; each with a branch of its own to the error node - and files that are broken YAML, name an unknown interpreter, hold a null node and a null branch, hold an unparsable pattern, are empty, hold a scalar, are missing), a machine state (with / without / with null bindings, without a node, at an unknown node, at an action node, at the error node, with a structured permanent binding) and one message (every JSON shape, addressed to the machine / to nobody / to the service names with malformed requests, deep nesting, and one per action behaviour: throwing, throwing a hostile object, returning null / a scalar / an array, binding or emitting what cannot be serialised, emitting to itself and to nobody) under every control setting (absent, null, limits 0 / -1 / 1 / 2), with and without the host's -v flag; in the thorough tier also every pair of messages for the working specifications. Each session ends with read-crew, get-spec, one ordinary message, remove, read-crew. Oracle: no panic (trap; a worker that dies is attributed to the case in flight), the service comes to rest, the listener answers every line with one readable line and does not give up.")
+	c.Rule("(mcrew host) a machine is added and messages are submitted as lines of Service.Listener's text protocol: every combination of a specification file (four that work - one with parameter defaults, one with an action-error node of its own, one that names the error node as its action-error node; each with a branch of its own to the error node - and files that are broken YAML, name an unknown interpreter, hold a null node and a null branch, hold an unparsable pattern, are empty, hold a scalar, are missing), a machine state (with / without / with null bindings, without a node, at an unknown node, at an action node, at the error node, with a structured permanent binding) and one message (every JSON shape, addressed to the machine / to nobody / to the service names with malformed requests, deep nesting, and one per action behaviour: throwing, throwing a hostile object, returning null / a scalar / an array, binding or emitting what cannot be serialised, emitting to itself and to nobody) under every control setting (absent, null, limits 0 / -1 / 1 / 2), with and without the host's -v flag; in the thorough tier also every pair of messages for the working specifications. Each session ends with read-crew, get-spec, the same add once more (a client that retries), one ordinary message, remove, read-crew. Oracle: no panic (trap; a worker that dies is attributed to the case in flight), the service comes to rest, the listener answers every line with one readable line and does not give up.")
 	var idx uint64
 	for _, sp := range specs {
 		for _, st := range states {
